@@ -1,6 +1,6 @@
 // C15 finding (soundness): a type parameter applied to type arguments inside a declaration is
 // accepted; instantiation silently drops the arguments (Ty::subst_ty).
-// FIXED in /repo by <commit15> (Ty::check_template checks the whole declaration type): this file must be
+// FIXED in /repo by eb42971 (Ty::check_template checks the whole declaration type): this file must be
 // REJECTED now; it is kept as a regression input (an acceptance is a violation).
 data Box[A] { B(x: A[i64, i64]) }
 def unbox(b: Box[i64]): i64 { b.case[i64] { B(x) => x } }
